@@ -134,6 +134,45 @@ impl<const N: usize> wbytes::AsyncWrite for ByteWriter<N> {
     }
 }
 
+/// stuttering model sink: each poll_write either suspends (at most `pendings` times in total, harness's choice) or
+/// accepts exactly one of the offered bytes - what a flow-controlled QUIC stream does when its credit runs out in the
+/// middle of a write and is extended later. A multi-byte write is therefore always partial, and a suspension can
+/// follow a partial write inside one poll of the writing future.
+pub struct StutterWriter<const N: usize> {
+    pub data: [u8; N],
+    pub off: usize,
+    pub pendings: u8,
+    /// number of suspensions that came directly after an accepted byte
+    pub cut_then_pending: u8,
+    last_was_write: bool,
+}
+impl<const N: usize> StutterWriter<N> {
+    pub fn new(pendings: u8) -> Self {
+        Self { data: [0; N], off: 0, pendings, cut_then_pending: 0, last_was_write: false }
+    }
+}
+impl<const N: usize> wbytes::AsyncWrite for StutterWriter<N> {
+    fn poll_write(self: Pin<&mut Self>, _cx: &mut Context<'_>, buf: &[u8]) -> Poll<std::io::Result<usize>> {
+        let this = self.get_mut();
+        if buf.is_empty() {
+            return Poll::Ready(Ok(0));
+        }
+        if this.pendings > 0 && kani::any() {
+            this.pendings -= 1;
+            if this.last_was_write {
+                this.cut_then_pending += 1;
+            }
+            this.last_was_write = false;
+            return Poll::Pending;
+        }
+        assert!(this.off < N, "model sink capacity exceeded (harness bound)");
+        this.data[this.off] = buf[0];
+        this.off += 1;
+        this.last_was_write = true;
+        Poll::Ready(Ok(1))
+    }
+}
+
 /// true iff a[..n] == b[..n]
 pub fn eq_prefix(a: &[u8], b: &[u8], n: usize) -> bool {
     let mut i = 0;
